@@ -62,6 +62,9 @@ def rfOp (st : List Rating.Tariff) : Tok → List Rating.Tariff × String
     | some ue, some rg, some c => (setTariff st ue rg c, "ok")
     | _, _, _ => (st, "bad-op")
   | ["reset", _] => ([], "ok")
+  | ["sur", _, _, "-", _, _, _, _] =>
+    -- no Subscription-Id AVP: handleSUR dereferences the nil pointer, go-diameter recovers and closes the connection
+    (st, "panic")
   | ["sur", sess, subT, sub, rg, rs, cons, quota] =>
     match bytesOfHex sess, subT.toNat?, bytesOfHex sub, rg.toNat?, rs.toNat?, cons.toNat?, quota.toNat? with
     | some sess, some subT, some sub, some rg, some rs, some cons, some quota =>
